@@ -15,11 +15,12 @@
 EXTENDS Integers, Sequences, FiniteSets, TLC, Json
 
 Classes == {"Int", "String", "Float", "Symbol"}
-Wraps == {"plain", "opt", "default", "rest", "arr"}
+Wraps == {"plain", "opt", "default", "rest", "arr", "uarr"}     \* uarr: the union of the members and an array of `arr`
 Named == {"Int", "String", "Float"}          \* classes with OptionalX / DefaultX / XArray names
 
 VARIABLE t
-Types == [ms : SUBSET Classes \ {{}}, wrap : Wraps, pos : {"ret", "arg"}]
+Types == [ms : SUBSET Classes \ {{}}, wrap : Wraps \ {"uarr"}, pos : {"ret", "arg"}, arr : {""}]
+         \cup [ms : SUBSET Classes \ {{}}, wrap : {"uarr"}, pos : {"ret", "arg"}, arr : Named]
 HasTwoNotations(x) ==
     LET n == Cardinality(x.ms) IN
     CASE x.wrap = "plain"   -> n >= 2 \/ x.ms = {"Int"}
@@ -27,6 +28,8 @@ HasTwoNotations(x) ==
       [] x.wrap = "default" -> x.pos = "arg" /\ n <= 2
       [] x.wrap = "rest"    -> x.pos = "arg" /\ n = 1
       [] x.wrap = "arr"     -> n = 1 /\ x.ms \subseteq Named
+      \* ["[T]", "A"] = "[T]|A" = ["TArray", "A"]: a compact element inside a long list
+      [] x.wrap = "uarr"    -> n <= 2
       [] OTHER -> FALSE
 
 Init == t \in {x \in Types : HasTwoNotations(x)}
@@ -39,5 +42,6 @@ Denote(x) == [classes |-> x.ms, nilable |-> x.wrap = "opt", omittable |-> x.wrap
 \* the long notation spells the wrapper with flags / extra members, the compact one with a prefix or a name:
 \* neither adds nor removes a class
 SameDenotation == Denote(t).classes = t.ms /\ (Denote(t).nilable => t.pos = "ret") /\ (Denote(t).omittable => t.pos = "arg")
-EmitInv == PrintT(ToJson([ms |-> t.ms, wrap |-> t.wrap, pos |-> t.pos, named |-> (Cardinality(t.ms) = 1 /\ t.ms \subseteq Named)]))
+EmitInv == PrintT(ToJson([ms |-> t.ms, wrap |-> t.wrap, pos |-> t.pos, arr |-> t.arr,
+                          named |-> (Cardinality(t.ms) = 1 /\ t.ms \subseteq Named)]))
 =============================================================================
